@@ -20,8 +20,6 @@ SPEC = dict(
                        + CASES('sasl_failure', FAIL_CASES, unwind=10) + CASES('bind2_feature', 2, unwind=10) + CASES('bind2_request', 4, unwind=10) + CASES('bind2_bound', 2, unwind=10)
                        + CASES('fast_feature', 2, unwind=10) + CASES('sasl2_failure', FAIL2_CASES, unwind=10) + CASES('sasl2_continue', 3, unwind=10) + CASES('sasl2_abort', 1, unwind=10)
                        + CASES('sasl2_success', 5, unwind=10) + CASES('sasl2_authenticate', 7, unwind=10, tiers=('thorough',))),
-        dict(name='dbg', harness='h_dbg.cpp', tus=['src/base/QXmppSasl.cpp', 'src/base/QXmppStreamManagement.cpp', 'src/base/QXmppUtils.cpp', 'src/base/QXmppStanza.cpp'], models=['qt_core.c', 'qt_list.c', 'qt_dom.c'],
-             instances=[I(e, unwind=10, timeout_s=120) for e in ['d1', 'd2', 'd3', 'd4']]),
     ],
     bounds=[], assumptions=[], outside=[],
 )
